@@ -11,6 +11,11 @@ def out (x : Str) : Json := .str (unchars x)
 def handle (f : String) (j : Json) : Option Json :=
   match f with
   | "infer_redirection" => some (out (infer_redirection (s j "url") (fieldBool j "recursive" true)))
+  | "infer_redirection_target" =>
+    -- the public one-hop function (`None` = null)
+    some (match inferRedirectionTarget (s j "url") with
+      | some t => out t
+      | none => .null)
   | "infer_fuel" =>
     -- the fuel-driven form used by the `decide` examples; must agree with the recursion
     some (out (inferFuel inferTarget (s j "url").length (s j "url")))
